@@ -750,7 +750,7 @@ func (x *Exec) loop(st *State, node ast.Stmt, ord int, label string, mod map[typ
 	}
 	defer func() { x.curHidden = savedHidden }()
 
-	evalInv := func(st *State, cl Clause) Term {
+	evalInv := func(st *State, cl Clause) (t Term) {
 		// variables declared inside the loop body are out of scope at the loop head: an invariant that names `p` means
 		// the loop variable, not a body-local that shadows it
 		savedFrom, savedTo := x.hideFrom, x.hideTo
@@ -766,7 +766,40 @@ func (x *Exec) loop(st *State, node ast.Stmt, ord int, label string, mod map[typ
 		}
 		defer func() { x.hideFrom, x.hideTo = savedFrom, savedTo }()
 		env := x.specEnv(st)
-		return x.safeSpec(env, cl.Expr, fmt.Sprintf("loop %d invariant", ord))
+		// An invariant that names a local variable the function no longer has (the loop body was rewritten) is a failed
+		// obligation of its own, "#anchor:loop<k>:<label>", and is then left out: the remaining invariants and the
+		// postconditions are still checked against the new body.
+		lost := ""
+		func() {
+			defer func() {
+				if r := recover(); r != nil {
+					if se, ok := r.(specErr); ok && strings.Contains(se.msg, "unknown identifier") {
+						lost = se.msg
+						return
+					}
+					panic(r)
+				}
+			}()
+			t = x.safeSpecRaw(env, cl.Expr)
+		}()
+		if lost != "" {
+			if x.lostInvs == nil {
+				x.lostInvs = map[string]bool{}
+			}
+			key := fmt.Sprintf("%d:%s", ord, cl.Raw)
+			if !x.lostInvs[key] {
+				x.lostInvs[key] = true
+				idx := len(x.lostInvs) - 1
+				name := fmt.Sprintf("%s#anchor:loop%d:inv%d", x.fullKey, ord, idx)
+				if cl.Label != "" {
+					name = fmt.Sprintf("%s#anchor:loop%d:%s", x.fullKey, ord, cl.Label)
+				}
+				x.obls = append(x.obls, &Obligation{Name: name, Kind: "anchor", Func: x.fullKey, PC: tTrue, Goal: tFalse, syntactic: true,
+					Pos: x.posOf(node), Text: fmt.Sprintf("loop %d invariant cannot be read against the current body (%s; anchor lost): %s", ord, lost, cl.Raw)})
+			}
+			return tTrue
+		}
+		return t
 	}
 	lbl := func(i int, cl Clause) string {
 		if cl.Label != "" {
